@@ -413,6 +413,7 @@ func check(prop, tier string) int {
 		fmt.Fprintln(os.Stderr, "tier must be quick or thorough")
 		return 2
 	}
+	os.Setenv("IONSIM_TIER", tier)
 	seed := uint64(envInt("VERIF_SEED", 1))
 	W := int(envInt("IONSIM_WORKERS", int64(runtime.NumCPU())))
 	if W > 16 {
